@@ -1020,7 +1020,7 @@ func (e *Engine) check(c *core.Ctx, sp spec) (*core.Outcome, error) {
 			"stubbed_components":              []string{"sockets and net/http's Server/Transport connection management -> SimTransport and simulated links", "crypto/rand.Reader -> seeded reader (multipart boundaries)", "sync.Pool and jx pools -> deterministic poisoning free lists", "goroutine scheduling at link, callback and pipe-writer points -> fake-clock time slicing", "OpenTelemetry: no-op providers"},
 		},
 		Assumptions: []string{
-			"one fixed world (12 operations) regenerated in two feature configurations (a: defaults + ogen/unimplemented; b: client request validation, server response validation, request options, no OpenTelemetry): shapes outside it are not examined",
+			"one fixed world (11 operations) regenerated in two feature configurations (a: defaults + ogen/unimplemented; b: client request validation, server response validation, request options, no OpenTelemetry): shapes outside it are not examined",
 			"the typed echo handler, the expected-value model (defaults from the spec) and the canonical renderer in simsrc/xsim are trusted; each is cross-checked against the alone runs",
 		},
 	}
